@@ -6,6 +6,7 @@ import (
 	"go/token"
 	"go/types"
 	"math/big"
+	"strings"
 
 	"golang.org/x/tools/go/ssa"
 )
@@ -158,7 +159,7 @@ func (fx *FuncExec) zeroValue(t types.Type) Value {
 }
 
 func (fx *FuncExec) constArr(v int64) *Term {
-	return fx.ts.intern(&Term{op: "app", name: fmt.Sprintf("((as const (Array Int Int)) %d)", v), sort: SArr})
+	return fx.ts.intern(&Term{op: "raw", name: fmt.Sprintf("((as const (Array Int Int)) %d)", v), sort: SArr})
 }
 
 // freshValue makes an unconstrained value of Go type t with its type's
@@ -239,7 +240,10 @@ func (fx *FuncExec) sliceFacts(s VSlice, st *State, reach *Term) {
 		ts.mk("=>", SBool, ts.mk("=", SBool, s.arr, ts.Int(0)), ts.mk("=", SBool, s.cap, ts.Int(0))))
 	fx.addFact(ts.True(), wf)
 	if st != nil {
-		fx.addFact(reach, ts.mk("<", SBool, s.arr, fx.heapGet(st, allocKey, SInt)))
+		a := fx.heapGet(st, allocKey, SInt)
+		// array ids: fresh arrays are below the allocation counter; negative ids are arrays embedded in
+		// objects, whose owner is below the counter as well
+		fx.addFact(reach, ts.And(ts.Lt(s.arr, a), ts.Lt(ts.Neg(ts.Mul(a, ts.Int(1024))), ts.Add(s.arr, ts.Int(1)))))
 	}
 }
 
@@ -334,6 +338,11 @@ func (fx *FuncExec) typedScalar(st *State, reach *Term, v *Term, t types.Type) V
 
 func (fx *FuncExec) loadField(st *State, reach *Term, key string, ref *Term, t types.Type) Value {
 	ts := fx.ts
+	if strings.HasPrefix(key, "global:") {
+		if v := fx.globalValue(st, strings.TrimPrefix(key, "global:"), t); v != nil {
+			return v
+		}
+	}
 	switch u := t.Underlying().(type) {
 	case *types.Basic:
 		if u.Info()&types.IsBoolean != 0 {
@@ -611,7 +620,8 @@ func (fx *FuncExec) execInstr(fn *ssa.Function, st *State, reach *Term, in ssa.I
 	case *ssa.MakeSlice:
 		n := fx.valueOf(st, ins.Len).(VInt).t
 		c := fx.valueOf(st, ins.Cap).(VInt).t
-		reach = fx.safe(reach, "makelen", src, ts.And(ts.Le(ts.Int(0), n), ts.Le(n, c), ts.Le(c, ts.BigInt(big2p40))))
+		reach = fx.safe(reach, "makelen", src, ts.And(ts.Le(ts.Int(0), n), ts.Le(n, c)))
+		fx.addFact(reach, ts.Le(c, ts.BigInt(big2p40))) // size assumption
 		el := ins.Type().Underlying().(*types.Slice).Elem()
 		id := fx.alloc(st)
 		if intRepresentable(el) {
@@ -1216,4 +1226,43 @@ func (fx *FuncExec) execSlice(st *State, reach *Term, ins *ssa.Slice, src string
 		st.vals[ins] = fx.freshValueR("sl", ins.Type(), st, reach)
 	}
 	return reach
+}
+
+// globalValue gives the initial value of a package-level variable that is
+// never assigned outside init and whose initializer the engine understands.
+func (fx *FuncExec) globalValue(st *State, name string, t types.Type) Value {
+	ts := fx.ts
+	gi, ok := fx.eng.globals[name]
+	if !ok || fx.eng.mutableGlobals[name] {
+		return nil
+	}
+	switch gi.kind {
+	case "bytes":
+		sl, ok := t.Underlying().(*types.Slice)
+		if !ok {
+			return nil
+		}
+		id := ts.Int(-int64(gi.idx)*1024 - 1024)
+		n := ts.Int(int64(len(gi.bytes)))
+		hk := elemHeapKey(sl.Elem())
+		arr := ts.Select(fx.heapGet(st, hk, SArr2), id)
+		var cs []*Term
+		for i := 0; i < len(gi.bytes); i++ {
+			cs = append(cs, ts.Eq(ts.Select(arr, ts.Int(int64(i))), ts.Int(int64(gi.bytes[i]))))
+		}
+		fx.addFact(ts.True(), ts.And(cs...))
+		return mkSlice(id, ts.Int(0), n, n, sl.Elem())
+	case "errorsNew":
+		if _, ok := t.Underlying().(*types.Interface); !ok {
+			return nil
+		}
+		return VIface{ts.Int(int64(fx.eng.errorStringTypeID())), ts.Int(1000000 + int64(gi.idx))}
+	case "Error":
+		stt, ok := t.Underlying().(*types.Struct)
+		if !ok || stt.NumFields() != 3 {
+			return nil
+		}
+		return VStruct{t, []Value{VInt{ts.Int(gi.code)}, VInt{ts.Int(gi.frame)}, VStr{ts.Int(fx.eng.stringID(gi.msg))}}}
+	}
+	return nil
 }
